@@ -63,3 +63,31 @@ def make_observer(sc):
         return [w for _, w in check_tree(tree, algo, docs, cids, only=[d for d in dirty if d in tree])]
 
     return observer
+
+
+def make_removal_observer(sc):
+    """C04 at step granularity: no step may remove an object file from its permanent address while, in the
+    tree just before that step, some pid is completely bound to it (a pid reference file naming the cid AND
+    that pid listed in the cid's reference list)."""
+    lay = sc.layout
+    pids = sc.pids
+
+    def observer(prev, tree, thread, op, dirty):
+        out = []
+        for r in dirty:
+            parts = r.split("/")
+            if parts[0] != "objects" or env.is_private(r) or parts[-1].endswith("_delete"):
+                continue
+            if r in prev and r not in tree:
+                cid = "".join(parts[1:])
+                lst = prev.get(lay.cid_ref_path(cid))
+                if lst is None:
+                    continue
+                listed = set(lst.decode("utf-8", "replace").split("\n"))
+                for pid in pids:
+                    ref = prev.get(lay.pid_ref_path(pid))
+                    if pid in listed and ref is not None and ref.decode("utf-8", "replace") == cid:
+                        out.append("a step removed the object file although pid %r was completely bound to it" % pid)
+        return out
+
+    return observer
